@@ -18,14 +18,14 @@ XREF = {
 }
 
 RULES = ['pkg.base', 'pkg.base.Base', 'pkg.base.Base.m', 'pkg.base.Base.other', 'pkg.base.helper', 'pkg.sub.Sub', 'pkg.sub.Sub.m', 'pkg.sub.Sub.Inner', 'pkg.sub', 'pkg._impl',
-         'pkg.Impl', 'pkg._impl.Impl', 'pkg', '**.Inner', '**._*', '**.m', '**.other', '**.CONST', 'pkg.sub.*', 'pkg.*.Base', '**.dup', '**.I', 'pkg.sub.Third', '**.__init__', 'pkg.base.*', 'pkg.deep', 'pkg.deep.**']
+         'pkg.Impl', 'pkg._impl.Impl', 'pkg', '**.Inner', '**._*', '**.m', '**.other', '**.CONST', 'pkg.sub.*', 'pkg.*.Base', '**.dup', '**.I', 'pkg.sub.Third', '**.__init__', 'pkg.base.*', 'pkg.deep', 'pkg.deep.**', 'pkg.__main__', 'pkg.__main__.*', 'pkg.shape']
 
 
 @st.composite
 def projects(draw: Any) -> Dict[str, Any]:
     fmt = draw(st.sampled_from(['epytext', 'epytext', 'restructuredtext', 'google', 'numpy', 'plaintext']))
     x = XREF[fmt]
-    f = {k: draw(st.booleans()) for k in ['reexport', 'dup', 'nonascii', 'nested', 'iface', 'override', 'inherit_doc', 'private', 'const', 'deep', 'xref_hidden', 'second_root', 'alias_base', 'prop', 'samename', 'multi_iface']}
+    f = {k: draw(st.booleans()) for k in ['reexport', 'dup', 'nonascii', 'nested', 'iface', 'override', 'inherit_doc', 'private', 'const', 'deep', 'xref_hidden', 'second_root', 'alias_base', 'prop', 'samename', 'multi_iface', 'dunder_main', 'caseclash']}
     base: List[str] = ['"""Base module, see %s."""' % x('Base')]
     base += ['class Base:', '    """Base class. See %s and %s."""' % (x('helper'), x('Base.other'))]
     base += ['    def m(self, a=None):', '        """Method m, see %s and %s and %s."""' % (x('other'), x('helper'), x('Base'))]
@@ -81,6 +81,14 @@ def projects(draw: Any) -> Dict[str, Any]:
             'class IBuf(Interface):\n    def close():\n        """close of IBuf"""\n'
             '@implementer(IReader)\nclass R:\n    pass\n@implementer(IWriter)\nclass W:\n    pass\n@implementer(ISeek, IBuf)\nclass S:\n    pass\n'
             'class Stream(R, W, S):\n    """inherits four interfaces"""\n    def close(self):\n        pass\n    def read(self):\n        pass\n')
+    if f['dunder_main']:
+        # a module named __main__ is private whatever its name looks like
+        files['pkg/__main__.py'] = ('"""entry point, see %s"""\nfrom .base import Base\nclass Runner(Base):\n    """runner"""\n    def run(self):\n        """see %s"""\n'
+                                    'def entry():\n    """entry"""\n' % (x('pkg.base.Base'), x('entry')))
+    if f['caseclash']:
+        # sibling modules whose names differ only by case (valid on a case-sensitive file system)
+        files['pkg/Shape.py'] = '"""Shape module"""\nfrom .base import Base\nclass Upper(Base):\n    """upper, see %s"""\n' % x('Base')
+        files['pkg/shape.py'] = '"""shape module"""\nfrom .base import Base\nclass Lower(Base):\n    """lower, see %s"""\ndef shape_fn():\n    """fn"""\n' % x('Base')
     roots = ['pkg']
     if f['second_root']:
         files['other.py'] = 'from pkg.base import Base\nclass O(Base):\n    """see %s"""\n' % x('pkg.sub.Sub')
